@@ -346,6 +346,7 @@ func modeCollectorProcess(mutate bool) func(r *vlib.Run, mode string, trial int,
 		os.WriteFile(cfgFile, []byte(prototext.Format(cfg)), 0o600)
 		logFile := filepath.Join(dir, "collector.log")
 		var cmd *exec.Cmd
+		var waitErr error // valid once exited is closed
 		var exited chan struct{}
 		var addr string
 		started := false
@@ -368,7 +369,7 @@ func modeCollectorProcess(mutate bool) func(r *vlib.Run, mode string, trial int,
 			lf.Close()
 			ex := make(chan struct{})
 			c := cmd
-			go func() { c.Wait(); close(ex) }()
+			go func() { waitErr = c.Wait(); close(ex) }()
 			exited = ex
 			selfExit := false
 		wait:
@@ -547,6 +548,11 @@ func modeCollectorProcess(mutate bool) func(r *vlib.Run, mode string, trial int,
 			}
 			b, _ := os.ReadFile(logFile)
 			kind, site, msg := collectorDeath(string(b))
+			if kind == "exit" && waitErr != nil && strings.Contains(waitErr.Error(), "signal: killed") {
+				// Killed from outside (the kernel under memory pressure): not a death by its own hand.
+				r.Inconclusive("collector-process: the collector was killed by SIGKILL from outside the harness (memory pressure?); scenario not judged")
+				return true
+			}
 			if site == "" {
 				site = "unattributed"
 			}
